@@ -385,6 +385,20 @@ Model/SrcPreludeG.v; the text generated for every other unit is untouched):
   through self.records.append(record) as its last statement, resp. through self.record[..] = ..), `for (a, b) in e` unpacked in
   the body, `a, b = <method answering a tuple of ints>` = py_pair_of_list (ValueError), a call of a SRCF_CLASSMETHODS classmethod
   through self with keyword arguments.
+* netaddr/eui/ieee.py -> pysrc_ieeeg_gen.v (C19: load_index).  A parameter declared `eindex` is an index dict changed in place: the
+  function answers the new dict (a `return` is appended; it must have none of its own); `index.setdefault(k, [])` /
+  `index[k].append((a, b))` = py_eidx_setdefault / py_eidx_append; `try: BODY / finally: <file parameter>.close()` is BODY;
+  `_csv.reader([x.decode('UTF-8') for x in fp])` for the file parameter fp (declared `list str`: its lines) = the Section variable
+  CSV_READER applied to the lines (csv.Error / UnicodeDecodeError not modelled; `import csv as _csv` checked); `[int(x) for x in
+  xs]` over text = py_map_og (py_int_o 10) (ValueError at the first bad item); `(a, b, c) = <list of ints>` = py_triple_of_list.
+* netaddr/ip/__init__.py -> pysrc_ipg_gen.v (C01: __repr__ of IPAddress / IPNetwork / IPRange, IPRange.__str__, IPAddress.__oct__;
+  C16: IPNetwork.ipv4).  `'..%s..%d..' % (a, ..)` = the pieces joined by String.append: %d = fmt_d of an int, %s = text itself, an int
+  in decimal, `self` / an IPAddress object (also self._start / self._end of an IPRange) through the translated __str__,
+  `self.__class__.__name__` = the name of the receiver class.  A definition that reaches a translated definition taking the socket
+  back-end takes `(be : backend)` first.  `klass = self.__class__; klass(<text>)` for the receiver class IPNetwork = the translated
+  constructor IPNetwork.__init__:str with its literal defaults; `_ipv4.f(args)` = the function f translated by a unit over
+  netaddr/strategy/ipv4.py (an omitted trailing parameter whose default is None and whose Coq type is unit: tt).  A local that
+  stays None on the paths where no branch assigns it makes the result optional (`ip = None .. return ip`).
 """
 import ast
 import os
@@ -7682,6 +7696,11 @@ SRCG_UNITS.append(
     # dict; `fp` = the index file as the list of its lines; csv.reader is the Section variable CSV_READER (decoded lines -> rows)
     ("netaddr/eui/ieee.py", "pysrc_ieeeg_gen.v", "ieee_", " Base.PyStr Model.SrcPreludeStr Model.SrcPreludeSRCE Model.SrcPreludeG",
      [(None, "load_index", {"index": "eindex", "fp": "list str"})]))
+SRCG_UNITS.append(
+    # netaddr/ip/__init__.py, what was left: text renderings around the translated __str__ (C01 / C03 / C12), IPNetwork.ipv4 (C16)
+    (IPFILE, "pysrc_ipg_gen.v", "", " Base.PyStr Model.SrcPreludeStr Model.AddrText Model.SrcPreludeCtor Model.SrcPreludeSRCE Model.SrcPreludeG",
+     [("IPAddress", "__repr__", {}), ("IPNetwork", "__repr__", {}), ("IPRange", "__str__", {}), ("IPRange", "__repr__", {}),
+      ("IPAddress", "__oct__", {}), ("IPNetwork", "ipv4", {})]))
 # the constant keys of a registration record, in the order of the `orec` tuple (= the dict literal the class writes), per class
 SRCG_REC_KEYS = {"OUI": ("idx", "oui", "org", "address", "offset", "size"), "IAB": ("idx", "iab", "org", "address", "offset", "size")}
 SRCG_REC_TYPES = ("int", "str", "str", ("list", "str"), "int", "int")
@@ -8136,7 +8155,8 @@ class FnG(FnE):
             return ("int", env[node.value.id][1])           # x._value of an OUI / IAB object x (represented by that integer)
         if (isinstance(node, ast.BinOp) and isinstance(node.op, ast.Mod) and isinstance(node.left, ast.Constant) and isinstance(node.left.value, str)
                 and isinstance(node.right, ast.Name) and node.right.id == "self" and "self" not in env and self.recv
-                and re.fullmatch(r"[ -$&-~]*%s[ -$&-~]*", node.left.value) and '"' not in node.left.value):
+                and re.fullmatch(r"[ -$&-~]*%s[ -$&-~]*", node.left.value) and '"' not in node.left.value
+                and self.tr.out == "pysrc_euig_gen.v"):
             a, b = node.left.value.split("%s")               # '<text>%s<text>' % self: str(self) = the translated __str__
             r = self.generated(node, self.recv, "__str__", self.state(env), [])
             if (r[1] if r[0] == "out" else r[0]) != "str":
@@ -8148,10 +8168,136 @@ class FnG(FnE):
                 h = r[1]
             return ("str", "(append \"%s\"%%string (append %s \"%s\"%%string))" % (a, h, b))
         if (isinstance(node, ast.BinOp) and isinstance(node.op, ast.Mod) and isinstance(node.left, ast.Constant) and isinstance(node.left.value, str)
+                and re.fullmatch(r"(?:[ -$&-~]|%s|%d)*", node.left.value) and '"' not in node.left.value and "%" in node.left.value
+                and self.tr.out != "pysrc_euig_gen.v"):
+            return self.format_sd(node, env)
+        if (isinstance(node, ast.BinOp) and isinstance(node.op, ast.Mod) and isinstance(node.left, ast.Constant) and isinstance(node.left.value, str)
                 and re.fullmatch(r"[ -$&-~]*%o", node.left.value) and '"' not in node.left.value):
             e = self.int_(node.right, env)                   # '<text>%o' % e for an int e: the text followed by e in octal
             return ("str", "(py_fmt_oct \"%s\"%%string %s)" % (node.left.value[:-2], e))
         return super().rhs(node, env)
+
+    def str_of_expr(self, node, env):
+        """str(e) as '%s' prints it: text itself; an int in decimal; `self` / an IPAddress object through the translated __str__;
+        `self.__class__.__name__` = the name of the receiver class (a subclass would print its own name: out of scope)"""
+        if dotted(node) == "self.__class__.__name__" and self.recv and "self" not in env:
+            return srcc_strlit(self.recv, node)
+        if isinstance(node, ast.Name) and node.id == "self" and "self" not in env and self.recv:
+            r = self.generated(node, self.recv, "__str__", self.state(env), [])
+        else:
+            ty, t = self.ex(node, env)
+            if ty == "str":
+                return t
+            if ty == "int":
+                return "(fmt_d %s)" % t
+            if ty != "obj":
+                bad(node, "%%s of %s" % show(ty))
+            r = self.generated(node, "IPAddress", "__str__", " ".join(t[:3]), [])
+        if (r[1] if r[0] == "out" else r[0]) != "str":
+            bad(node, "__str__ is not translated as text")
+        if r[0] != "out":
+            return r[1]
+        h = self.fresh()
+        self.hoist(node, ("bind", h, r[2]))
+        return h
+
+    def format_sd(self, node, env):
+        """'..%s..%d..' % (a, b) / % a: the pieces joined by String.append (right-nested), arguments left to right"""
+        fmt = node.left.value
+        args = node.right.elts if isinstance(node.right, ast.Tuple) else [node.right]
+        parts = re.split(r"(%s|%d)", fmt)
+        if len([x for x in parts if x in ("%s", "%d")]) != len(args):
+            bad(node, "format string with %d conversions for %d arguments" % (len(parts) // 2, len(args)))
+        terms, args = [], list(args)
+        for x in parts:
+            if x == "%s":
+                terms.append(self.str_of_expr(args.pop(0), env))
+            elif x == "%d":
+                terms.append("(fmt_d %s)" % self.int_(args.pop(0), env))
+            elif x:
+                terms.append(srcc_strlit(x, node))
+        out = terms[-1]
+        for t in reversed(terms[:-1]):
+            out = "(String.append %s %s)" % (t, out)
+        return ("str", out)
+
+    def generated(self, node, recv, name, state, args):
+        r = super().generated(node, recv, name, state, args)
+        d = self.depfns[-1]
+        if getattr(d, "uses_be", False) or getattr(d, "g_uses_be", False):      # the callee takes the socket back-end first (CtorFn / FnG)
+            self.g_uses_be = True
+            r = r[:-1] + (r[-1].replace("(%s" % d.cname, "(%s be" % d.cname, 1),)
+        return r
+
+    def text(self):
+        t = super().text()
+        if getattr(self, "g_uses_be", False):
+            if self.loops:
+                bad(self.f, "loop in a function that depends on the socket back-end")
+            head = "\nDefinition %s " % self.cname
+            if t.count(head) != 1:
+                bad(self.f, "cannot place the back-end parameter of %s" % self.cname)
+            t = t.replace(head, head + "(be : backend) ", 1)
+        return t
+
+    def ctor(self, node, cls, env):
+        if cls == "IPNetwork" and len(node.args) == 1 and not node.keywords and not isinstance(node.args[0], ast.Tuple):
+            snap, pre0 = self.snapshot(), list(self.pre)
+            ty, t = self.ex(node.args[0], env)
+            if ty == "str":                                  # IPNetwork(<text>): the translated constructor __init__:str, defaults filled in
+                d = self.tr.get("IPNetwork", "__init__:str", node)
+                names = [a.arg for a in d.f.args.args][1:]
+                dfl = dict(zip(names[len(names) - len(d.f.args.defaults):], d.f.args.defaults))
+                args = [(ty, t)]
+                for x, (_, pty) in list(zip(names, d.params))[1:]:
+                    v = dfl.get(x)
+                    if not isinstance(v, ast.Constant):
+                        bad(node, "parameter %s of IPNetwork.__init__ has no constant default" % x)
+                    if v.value is None and pty == "optint":
+                        args.append(("optint", "None"))
+                    elif isinstance(v.value, bool) and pty == "bool":
+                        args.append(("bool", "true" if v.value else "false"))
+                    elif isinstance(v.value, int) and not isinstance(v.value, bool) and pty == "int":
+                        args.append(("int", "%d" % v.value if v.value >= 0 else "(%d)" % v.value))
+                    else:
+                        bad(node, "default of parameter %s of IPNetwork.__init__" % x)
+                return self.generated(node, "IPNetwork", "__init__:str", "", args)
+            self.restore(snap)
+            self.pre = pre0
+        return super().ctor(node, cls, env)
+
+    def strategy_call(self, node, env):
+        """_ipv4.f(args) / _ipv6.f(args) for the strategy modules the file imports: the function f translated by a unit over that
+        module's file; omitted trailing parameters take their literal default (None for a parameter of Coq type unit: tt)"""
+        f = node.func
+        m = f.value.id[1:]
+        if self.mod.imports.get(f.value.id) != "netaddr.strategy." + m or f.value.id in env or node.keywords:
+            bad(node, "call of %s.%s" % (f.value.id, f.attr))
+        d = None
+        for t in BY_MODULE_ALL.get("netaddr.strategy." + m, ()):
+            if any(k[0] is None and k[1] == f.attr for k in t.specs):
+                d = t.get(None, f.attr, node)
+        if d is None:
+            bad(node, "%s.%s is not translated" % (f.value.id, f.attr))
+        if FILES.index(d.file) > FILES.index(self.file):
+            bad(node, "%s lives in a later file" % d.cname)
+        self.depfns.append(d)
+        names = [a.arg for a in d.f.args.args]
+        dfl = dict(zip(names[len(names) - len(d.f.args.defaults):], d.f.args.defaults))
+        args = [self.ex(x, env) for x in node.args]
+        for x, (_, pty) in list(zip(names, d.params))[len(args):]:
+            v = dfl.get(x)
+            if not (isinstance(v, ast.Constant) and v.value is None and coqty(pty, node) == "unit"):
+                bad(node, "omitted parameter %s of %s" % (x, d.cname))
+            args.append((pty, "tt"))
+        if len(args) != len(d.params):
+            bad(node, "argument list of %s" % d.cname)
+        for (ty, _), (_, pty) in zip(args[:len(node.args)], d.params):
+            unify(node, ty, pty, "argument of %s" % d.cname)
+        if d.__dict__.get("srcc_be") or d.optional or d.mutating:
+            bad(node, "%s uses the socket back-end, may return None or assigns state" % d.cname)
+        term = "(%s)" % " ".join([d.cname] + [t for _, t in args])
+        return ("out", d.kind, term) if d.outcome else (d.kind, term)
 
     def index_symbol(self, node):
         """ieee.OUI_INDEX / ieee.IAB_INDEX inside a function that imports `ieee` from netaddr.eui: the Section variable of that name
@@ -8316,6 +8462,9 @@ class FnG(FnE):
             if ty not in ("int", "str"):
                 bad(node, "_is_int of %s" % show(ty))
             return ("bool", "true" if ty == "int" else "false")
+        if (isinstance(f, ast.Attribute) and isinstance(f.value, ast.Name) and f.value.id in ("_ipv4", "_ipv6")
+                and self.tr.out == "pysrc_ipg_gen.v"):
+            return self.strategy_call(node, env)
         if (name == "DictDotLookup" and name not in env and self.mod.imports.get(name) == "netaddr.core.DictDotLookup" and len(node.args) == 1
                 and not node.keywords):
             ty, t = self.ex(node.args[0], env)               # DictDotLookup(d): the attribute view of the dict d, represented by d itself
